@@ -57,7 +57,10 @@ def run(rep, tier, seed):
                          cassettes=('memory',), n_conc=1, sample=3000, cap=6000)
             rep.exhaustive = bool(ex)
         else:
-            chk.check('chk', gen_consts(4, OutAliases=['oa1', 'oa2']), invariants=INVS, timeout=3000)
+            chk.check('chk', gen_consts(3, OutAliases=['oa1', 'oa2']), invariants=INVS, timeout=3000)
+            chk.check('chk4', gen_consts(4, InCalls=[('ia2', 2), ('ia1', 1)], OutAliases=['oa2'], Bodies=['plain', 'discards', 'forces'],
+                                        Classes=[K('K1', copyOn=True), K('K2', rate='frac')], Extractors=['none'], SaveFails=[False],
+                                        StartEnabled=[True]), invariants=INVS, timeout=3000)
             ex = chk.generate('gen2', gen_consts(2), cassettes=('memory', 'file'), n_conc=4, all_paths=True)
             chk.generate('gen3', gen_consts(3), cassettes=('memory',), n_conc=2, all_paths=True, cap=300000)
             rep.exhaustive = bool(ex)
